@@ -41,7 +41,13 @@ func (pid *PeerID) UnmarshalText(data []byte) error {
 	if len(data) != enc.EncodedLen(len(pid)) {
 		return errors.New("data is wrong length")
 	}
-	enc.Decode(pid[:], data)
+	n, err := enc.Decode(pid[:], data)
+	if err != nil {
+		return err
+	}
+	if n != len(pid) {
+		return errors.New("data is wrong length")
+	}
 	return nil
 }
 
